@@ -69,7 +69,7 @@ impl MT941 {
         // Parse mandatory fields
         let field_20 = parser.parse_field::<Field20>("20")?;
         let field_21 = parser.parse_optional_field::<Field21NoOption>("21")?;
-        let field_25 = parser.parse_field::<Field25AccountIdentification>("25")?;
+        let field_25 = parser.parse_variant_field::<Field25AccountIdentification>("25")?;
         let field_28 = parser.parse_field::<Field28>("28")?;
 
         // Parse optional date/time indication
